@@ -134,3 +134,188 @@ package ops
 //@          dim(A, k) == bdim(dim(A0, k), dim(B0, k)) && dim(B, k) == bdim(dim(A0, k), dim(B0, k))
 //@   loop 1 invariant forall k :: 0 <= k && k <= axis ==> dim(A, k) == dim(A0, k) && dim(B, k) == dim(B0, k)
 //@   loop 1 invariant (forall k :: axis < k && k < nDims ==> dim(A0, k) == dim(B0, k)) ==> A == A0 && B == B0
+
+//@ func MultidirectionalBroadcast
+//@   tags C14,C02,C03
+//@   requires A != nil && B != nil
+//@   scope extents_positive: dims_positive(A) && dims_positive(B)
+//@   ensures compatible_iff_ok: (err == nil) <==> bcompat(A, B)
+//@   ensures err != nil ==> result0 == nil && result1 == nil
+//@   ensures broadcast_shape: err == nil ==> result0 != nil && result1 != nil && allocated(result0) && allocated(result1) &&
+//@          rank(result0) == maxi(rank(A), rank(B)) && rank(result1) == maxi(rank(A), rank(B)) &&
+//@          dtype(result0) == dtype(A) && dtype(result1) == dtype(B) &&
+//@          (forall k :: 0 <= k && k < maxi(rank(A), rank(B)) ==>
+//@             dim(result0, k) == bdim(adim(A, maxi(rank(A), rank(B)), k), adim(B, maxi(rank(A), rank(B)), k)) &&
+//@             dim(result1, k) == bdim(adim(A, maxi(rank(A), rank(B)), k), adim(B, maxi(rank(A), rank(B)), k)))
+//@   ensures same_shape_is_identity: err == nil && rank(A) == rank(B) && (forall k :: 0 <= k && k < rank(A) ==> dim(A, k) == dim(B, k)) ==> result0 == A && result1 == B
+
+//@ func repeatTensorsForUnidirBroadcast
+//@   tags C14,C02
+//@   requires A != nil && B != nil && rank(A) == rank(B)
+//@   scope extents_positive: dims_positive(A) && dims_positive(B)
+//@   ensures compatible_iff_ok: (err == nil) <==> (forall k :: 0 <= k && k < rank(A) ==> dim(B, k) == dim(A, k) || dim(B, k) == 1)
+//@   ensures err != nil ==> result == nil
+//@   ensures shape: err == nil ==> result != nil && allocated(result) && rank(result) == rank(A) && dtype(result) == dtype(B) &&
+//@          (forall k :: 0 <= k && k < rank(A) ==> dim(result, k) == dim(A, k))
+//@   ensures untouched_when_equal: err == nil && (forall k :: 0 <= k && k < rank(A) ==> dim(A, k) == dim(B, k)) ==> result == B
+//@   loop 1 invariant 0 - 1 <= axis && axis < len(shapeA) && shapeA == shapeof(A) && shapeB == shapeof(B0) && B != nil && allocated(B) &&
+//@          rank(B) == rank(A) && dtype(B) == dtype(B0)
+//@   loop 1 invariant forall k :: axis < k && k < rank(A) ==> (dim(B0, k) == dim(A, k) || dim(B0, k) == 1) && dim(B, k) == dim(A, k)
+//@   loop 1 invariant forall k :: 0 <= k && k <= axis ==> dim(B, k) == dim(B0, k)
+//@   loop 1 invariant (forall k :: axis < k && k < rank(A) ==> dim(A, k) == dim(B0, k)) ==> B == B0
+
+//@ func UnidirectionalBroadcast
+//@   tags C14,C02
+//@   requires A != nil && B != nil
+//@   scope extents_positive: dims_positive(A) && dims_positive(B)
+//@   ensures compatible_iff_ok: (err == nil) <==> (rank(B) <= rank(A) &&
+//@          (forall k :: 0 <= k && k < rank(A) ==> adim(B, rank(A), k) == dim(A, k) || adim(B, rank(A), k) == 1))
+//@   ensures err != nil ==> result0 == nil && result1 == nil
+//@   ensures first_operand_as_is: err == nil ==> result0 == A
+//@   ensures shape: err == nil ==> result1 != nil && allocated(result1) && rank(result1) == rank(A) && dtype(result1) == dtype(B) &&
+//@          (forall k :: 0 <= k && k < rank(A) ==> dim(result1, k) == dim(A, k))
+
+// ---------------------------------------------------------------------------------------
+// C03: elementwise binary operators. The kernels themselves are gorgonia's (trusted model: equal
+// shapes and dtypes else error, result of that shape, content k_bin(kind, lhs, rhs)); what is
+// proved here is the dispatch (which kernel), the broadcasting around it and the refusals.
+
+//@ spec same_shape(a tensor.Tensor, b tensor.Tensor) bool = rank(a) == rank(b) && (forall k :: 0 <= k && k < rank(a) ==> dim(a, k) == dim(b, k))
+//@ spec numeric(d dtype) bool = d == Int || d == Int8 || d == Int16 || d == Int32 || d == Int64 || d == Uint || d == Uint8 || d == Uint16 || d == Uint32 || d == Uint64 || d == Float32 || d == Float64 || d == Complex64 || d == Complex128
+//@ spec ordered(d dtype) bool = d == Int || d == Int8 || d == Int16 || d == Int32 || d == Int64 || d == Uint || d == Uint8 || d == Uint16 || d == Uint32 || d == Uint64 || d == Float32 || d == Float64 || d == String
+//@ spec isfloat(d dtype) bool = d == Float32 || d == Float64
+//@ spec kernel_result(r tensor.Tensor, a tensor.Tensor, b tensor.Tensor, kind int) bool = r != nil && fresh(r) && allocated(r) && same_shape(r, a) &&
+//@        binkind(contents(r)) == kind && binlhs(contents(r)) == contents(a) && binrhs(contents(r)) == contents(b)
+
+//@ func Add
+//@   tags C03,C02
+//@   requires A != nil && B != nil
+//@   ensures (err == nil) <==> (same_shape(A, B) && dtype(A) == dtype(B) && numeric(dtype(A)))
+//@   ensures err == nil ==> kernel_result(result, A, B, 1) && dtype(result) == dtype(A)
+//@   ensures err != nil ==> result == nil
+
+//@ func Sub
+//@   tags C03,C02
+//@   requires A != nil && B != nil
+//@   ensures (err == nil) <==> (same_shape(A, B) && dtype(A) == dtype(B) && numeric(dtype(A)))
+//@   ensures err == nil ==> kernel_result(result, A, B, 2) && dtype(result) == dtype(A)
+//@   ensures err != nil ==> result == nil
+
+//@ func Mul
+//@   tags C03,C02
+//@   requires A != nil && B != nil
+//@   ensures (err == nil) <==> (same_shape(A, B) && dtype(A) == dtype(B) && numeric(dtype(A)))
+//@   ensures err == nil ==> kernel_result(result, A, B, 3) && dtype(result) == dtype(A)
+//@   ensures err != nil ==> result == nil
+
+//@ func Div
+//@   tags C03,C02
+//@   requires A != nil && B != nil
+//@   ensures err == nil ==> same_shape(A, B) && dtype(A) == dtype(B) && numeric(dtype(A))
+//@   ensures same_shape(A, B) && dtype(A) == dtype(B) && isfloat(dtype(A)) ==> err == nil
+//@   ensures err == nil ==> kernel_result(result, A, B, 4) && dtype(result) == dtype(A)
+//@   ensures err != nil ==> result == nil
+
+//@ func Gt
+//@   tags C03,C02
+//@   requires A != nil && B != nil
+//@   ensures (err == nil) <==> (same_shape(A, B) && dtype(A) == dtype(B) && ordered(dtype(A)))
+//@   ensures err == nil ==> kernel_result(result, A, B, 5) && dtype(result) == Bool
+//@   ensures err != nil ==> result == nil
+
+//@ func Gte
+//@   tags C03,C02
+//@   requires A != nil && B != nil
+//@   ensures (err == nil) <==> (same_shape(A, B) && dtype(A) == dtype(B) && ordered(dtype(A)))
+//@   ensures err == nil ==> kernel_result(result, A, B, 6) && dtype(result) == Bool
+//@   ensures err != nil ==> result == nil
+
+//@ func Lt
+//@   tags C03,C02
+//@   requires A != nil && B != nil
+//@   ensures (err == nil) <==> (same_shape(A, B) && dtype(A) == dtype(B) && ordered(dtype(A)))
+//@   ensures err == nil ==> kernel_result(result, A, B, 7) && dtype(result) == Bool
+//@   ensures err != nil ==> result == nil
+
+//@ func Lte
+//@   tags C03,C02
+//@   requires A != nil && B != nil
+//@   ensures (err == nil) <==> (same_shape(A, B) && dtype(A) == dtype(B) && ordered(dtype(A)))
+//@   ensures err == nil ==> kernel_result(result, A, B, 8) && dtype(result) == Bool
+//@   ensures err != nil ==> result == nil
+
+//@ func Equal
+//@   tags C03,C02
+//@   requires A != nil && B != nil
+//@   ensures (err == nil) <==> (same_shape(A, B) && dtype(A) == dtype(B) && true)
+//@   ensures err == nil ==> kernel_result(result, A, B, 9) && dtype(result) == Bool
+//@   ensures err != nil ==> result == nil
+
+//@ spec opkind(op BinaryOp) int = ite(op == funcid("ops.Add"), 1, ite(op == funcid("ops.Sub"), 2, ite(op == funcid("ops.Mul"), 3, ite(op == funcid("ops.Div"), 4,
+//@        ite(op == funcid("ops.Gt"), 5, ite(op == funcid("ops.Gte"), 6, ite(op == funcid("ops.Lt"), 7, ite(op == funcid("ops.Lte"), 8, ite(op == funcid("ops.Equal"), 9,
+//@        ite(op == funcid("ops.And"), 10, ite(op == funcid("ops.Or"), 11, ite(op == funcid("ops.Xor"), 12, 0))))))))))))
+//@ spec bshape_is(r tensor.Tensor, a tensor.Tensor, b tensor.Tensor) bool = rank(r) == maxi(rank(a), rank(b)) &&
+//@        (forall k :: 0 <= k && k < maxi(rank(a), rank(b)) ==> dim(r, k) == bdim(adim(a, maxi(rank(a), rank(b)), k), adim(b, maxi(rank(a), rank(b)), k)))
+
+//@ func ApplyBinaryOperation
+//@   tags C03,C02
+//@   requires A != nil && B != nil && opkind(op) != 0 && (broadcastOption == 0 || broadcastOption == 1 || broadcastOption == 2)
+//@   scope extents_positive: dims_positive(A) && dims_positive(B)
+//@   ensures incompatible_refused: broadcastOption == 2 && !bcompat(A, B) ==> err != nil
+//@   ensures computed: broadcastOption == 2 && bcompat(A, B) && dtype(A) == dtype(B) &&
+//@          ite(opkind(op) <= 3, numeric(dtype(A)), ite(opkind(op) == 4, isfloat(dtype(A)), ite(opkind(op) == 9, true, ite(opkind(op) >= 10, dtype(A) == Bool, ordered(dtype(A)))))) ==> err == nil
+//@   ensures result_shape: broadcastOption == 2 && err == nil ==> len(result) == 1 && result[0] != nil && allocated(result[0]) && bshape_is(result[0], A, B) &&
+//@          dtype(result[0]) == ite(opkind(op) <= 4, dtype(A), Bool)
+//@   ensures result_of_kernel: broadcastOption == 2 && err == nil && opkind(op) <= 9 ==> binkind(contents(result[0])) == opkind(op) && dtype(A) == dtype(B)
+//@   ensures error_has_nil_tensor: err != nil ==> result == nil || (len(result) == 1 && result[0] == nil)
+
+//@ func Or$1
+//@   tags C03
+//@   ensures result <==> (a || b)
+//@ func And$1
+//@   tags C03
+//@   ensures result <==> (a && b)
+//@ func Xor$1
+//@   tags C03
+//@   ensures result <==> (a != b)
+
+//@ func applyBooleanBinaryOperator
+//@   tags C03,C02
+//@   requires A != nil && B != nil && (op == funcid("ops.Or$1") || op == funcid("ops.And$1") || op == funcid("ops.Xor$1"))
+//@   scope extents_positive: dims_positive(A) && dims_positive(B)
+//@   ensures incompatible_refused: !bcompat(A, B) ==> err != nil
+//@   ensures err != nil ==> result == nil
+//@   ensures result_shape: err == nil ==> bcompat(A, B) && result != nil && fresh(result) && allocated(result) && dtype(result) == Bool && bshape_is(result, A, B)
+//@   ensures bool_operands_computed: bcompat(A, B) && dtype(A) == Bool && dtype(B) == Bool ==> err == nil
+//@   loop 1 invariant A != nil && B != nil && output != nil && fresh(output) && allocated(output) && dtype(output) == Bool && iterates(iterator, A)
+//@   loop 1 invariant bshape_is(output, A0, B0)
+//@   loop 1 invariant same_shape(output, A)
+//@   loop 1 invariant same_shape(A, B)
+//@   loop 1 invariant dtype(A) == dtype(A0) && dtype(B) == dtype(B0)
+
+//@ func Or
+//@   tags C03,C02
+//@   requires A != nil && B != nil
+//@   scope extents_positive: dims_positive(A) && dims_positive(B)
+//@   ensures bool_operands_computed: bcompat(A, B) && dtype(A) == Bool && dtype(B) == Bool ==> err == nil
+//@   ensures incompatible_refused: !bcompat(A, B) ==> err != nil
+//@   ensures err != nil ==> result == nil
+//@   ensures result_shape: err == nil ==> bcompat(A, B) && result != nil && fresh(result) && allocated(result) && dtype(result) == Bool && bshape_is(result, A, B)
+
+//@ func And
+//@   tags C03,C02
+//@   requires A != nil && B != nil
+//@   scope extents_positive: dims_positive(A) && dims_positive(B)
+//@   ensures bool_operands_computed: bcompat(A, B) && dtype(A) == Bool && dtype(B) == Bool ==> err == nil
+//@   ensures incompatible_refused: !bcompat(A, B) ==> err != nil
+//@   ensures err != nil ==> result == nil
+//@   ensures result_shape: err == nil ==> bcompat(A, B) && result != nil && fresh(result) && allocated(result) && dtype(result) == Bool && bshape_is(result, A, B)
+
+//@ func Xor
+//@   tags C03,C02
+//@   requires A != nil && B != nil
+//@   scope extents_positive: dims_positive(A) && dims_positive(B)
+//@   ensures bool_operands_computed: bcompat(A, B) && dtype(A) == Bool && dtype(B) == Bool ==> err == nil
+//@   ensures incompatible_refused: !bcompat(A, B) ==> err != nil
+//@   ensures err != nil ==> result == nil
+//@   ensures result_shape: err == nil ==> bcompat(A, B) && result != nil && fresh(result) && allocated(result) && dtype(result) == Bool && bshape_is(result, A, B)
